@@ -48,12 +48,12 @@ import numpy as np
 
 def brle_length(brle):
     """Optimized implementation of `len(brle_to_dense(brle))`"""
-    return np.sum(brle)
+    return int(np.sum(brle))
 
 
 def rle_length(rle):
     """Optimized implementation of `len(rle_to_dense(rle_to_brle(rle)))`"""
-    return np.sum(rle[1::2])
+    return int(np.sum(rle[1::2]))
 
 
 def rle_to_brle(rle, dtype=None):
